@@ -619,3 +619,14 @@ impl fmt::Display for Formatted {
 		write!(f, "{}", self.num)
 	}
 }
+
+#[cfg(feature = "verif-hooks")]
+impl Real {
+	/// The rational behind a plain (non-pi) real, for the external verification harness.
+	pub(crate) fn verif_simple(&self) -> Option<&BigRat> {
+		match &self.pattern {
+			Pattern::Simple(a) => Some(a),
+			Pattern::Pi(_) => None,
+		}
+	}
+}
